@@ -77,6 +77,9 @@ def validate(ev):
 def write(pid, ev):
     ok = validate(ev)
     d = os.path.join(VERIF, "evidence")
+    if os.path.realpath(os.environ.get("VERIF_REPO", "/repo")) != "/repo":
+        # sensitivity runs against a scratch tree must not overwrite the evidence of /repo
+        d = os.path.join(VERIF, ".cache", "evidence-scratch")
     os.makedirs(d, exist_ok=True)
     with open(os.path.join(d, "%s.json" % pid), "w") as fh:
         json.dump(ev, fh, indent=1, sort_keys=True)
